@@ -56,6 +56,7 @@ func RunC05(c *Ctx) {
 		}
 		idx++
 	}
+	runEngB(c, c.N(8, 200))
 	sampleEng(c, e)
 }
 
@@ -336,6 +337,7 @@ func RunC16(c *Ctx) {
 			runC09History(c, 1000000+i)
 		}
 	}
+	runEngB(c, c.N(8, 200))
 	sampleEng(c, e)
 }
 
